@@ -21,7 +21,7 @@
 //!         | "U(" STR(name) ";" OPT(system) ";" OPT(public) ";" VAL ")" unexpanded entity reference
 //!         | "Y(" OPT(prefix) ";" STR(local) ";" OPT(system) ";" OPT(public) ";al=[" ("L(" OPT ";" STR ")")* "]"
 //!           ";en=[" ENT* "];no=[" NOT* "];pi=[" P-items "])"                                 doctype
-//!   ATTR  = "A(" OPT(prefix) ";" STR(local) ";[" AV* "])"   ns= namespace_attributes(), a= the specified
+//!   ATTR  = "A(" OPT(prefix) ";" STR(local) ";[" AV* "])"   ns= the specified ones of namespace_attributes(), a= the specified
 //!           ones of attributes() (defaulted attributes belong to the `attr` domain), both in iteration order
 //!   AV    = "t(" STR ")" | "r(" STR ";" STR ";" radix ")" | "u(" STR ";" OPT ";" OPT ";" VAL ")"
 //!   ENT   = "N(" STR(name) ";" ("~" | "V[" EV* "]") ";" OPT(system) ";" OPT(public) ";" OPT(ndata) ")"
@@ -157,7 +157,12 @@ impl Cx {
                 let e = e.borrow();
                 let mut s = format!("E({};{};ns=[", opt(e.prefix()), enc(e.local_name()));
                 for a in e.namespace_attributes().iter() {
-                    s.push_str(&self.attr(&a.borrow()));
+                    // since /repo bf629dc namespace_attributes() also answers declarations supplied by ATTLIST
+                    // defaults: like defaulted attributes they belong to the `ns` / `attr` domains, not to the
+                    // stored document this domain dumps
+                    if xml_info::Attribute::specified(&*a.borrow()) {
+                        s.push_str(&self.attr(&a.borrow()));
+                    }
                 }
                 s.push_str("];a=[");
                 for a in e.attributes().iter() {
